@@ -216,14 +216,23 @@ BASE_ENV = {"CENTERJSAMPLE": 128, "BYTE_BIT": 8, "WORD_BIT": 16, "DWORD_BIT": 32
             "SIZEOF_ISLOW_MULT_TYPE": 2, "SIZEOF_IFAST_MULT_TYPE": 2, "IFAST_SCALE_BITS": 2, "MAXJSAMPLE": 255}
 
 def check_base_env():
-    inc = rd("simd/nasm/jsimdext.inc")
-    for k in ("BYTE_BIT", "WORD_BIT", "SIZEOF_XMMWORD", "SIZEOF_YMMWORD", "SIZEOF_MMWORD", "SIZEOF_DWORD"):
-        m = re.search(r"%%define\s+%s\s+(\d+)" % k, inc)
-        if not m or int(m.group(1)) != BASE_ENV[k]:
-            die("jsimdext.inc: %s is no longer %d" % (k, BASE_ENV[k]))
-    if not re.search(r"%define\s+DESCALE\(x,\s*n\)\s+\(\(\(x\)\s*\+\s*\(1\s*<<\s*\(\(n\)\s*-\s*1\)\)\)\s*>>\s*\(n\)\)", inc):
-        # only needed by the %else branches, which are not taken; do not fail hard
-        pass
+    inc = re.sub(r";.*", "", rd("simd/nasm/jsimdext.inc"))
+    raw = {}
+    for m in re.finditer(r"^%define\s+([A-Za-z_][A-Za-z0-9_]*)\s+([A-Za-z0-9_]+)\s*$", inc, re.M):
+        raw.setdefault(m.group(1), m.group(2))
+    def res(k, d=0):
+        v = raw.get(k)
+        if v is None or d > 8:
+            return None
+        return int(v) if v.isdigit() else res(v, d + 1)
+    for k in ("BYTE_BIT", "WORD_BIT", "SIZEOF_XMMWORD", "SIZEOF_YMMWORD", "SIZEOF_MMWORD", "SIZEOF_DWORD", "SIZEOF_WORD"):
+        if res(k) != BASE_ENV[k]:
+            die("jsimdext.inc: %s is no longer %d (got %s)" % (k, BASE_ENV[k], res(k)))
+    jc = rd("simd/nasm/jsimdcfg.inc")
+    m = re.search(r"%define\s+CENTERJSAMPLE\s+(\d+)", jc)
+    if not m or int(m.group(1)) != BASE_ENV["CENTERJSAMPLE"]:
+        die("jsimdcfg.inc: CENTERJSAMPLE is no longer 128")
+
 
 def asm_eval(expr, env, fname):
     e = expr.strip()
@@ -256,6 +265,10 @@ def asm_parse(fname):
         if s.startswith("%if"):
             mm = re.match(r"%if\s+(.*)", s)
             cond = False
+            if mm is None:          # %ifdef / %ifndef / %ifidn ...: not needed for constants
+                md = re.match(r"%if(n?)def\s+([A-Za-z_][A-Za-z0-9_]*)", s)
+                stack.append(bool(md) and ((md.group(2) in env) != (md.group(1) == "n")) and all(stack))
+                continue
             if all(stack):
                 ce = mm.group(1).replace("==", " == ")
                 toks = re.findall(r"[A-Za-z_][A-Za-z0-9_]*", ce)
